@@ -90,17 +90,80 @@ let handle kind c =
     if bad > 0 then
       prop "quiescent" (Printf.sprintf "%d of %d counters of stack counters with names near the length limit are not persisted (file open, all calls returned): %s" bad n (string_of_bytes detail))
   | "multi" ->
-    (* oracle-only scenario outside the single-counter model *)
+    (* several counters of one file object: Model/CounterMulti in lock step (one
+       model step per scheduler step, every observation compared), plus the
+       oracles hang / panic / quiescent on the implementation's final state *)
     let status = next c in
     let nc = next_int c in
+    let read_obs () =
+      let per = List.init nc (fun _ -> let w = next_z c in let p = next_z c in let pers = next_z c in (w, p, pers)) in
+      let cu = next_z c in let ncl = next_z c in (per, cu, ncl) in
+    let show_obs (per, cu, ncl) =
+      String.concat " " (List.mapi (fun i (w, p, pers) ->
+          Printf.sprintf "m%d:word=%s,ptr=%s,persisted=%s" i (tok_of_z w) (tok_of_z p) (tok_of_z pers)) per)
+      ^ Printf.sprintf " cur=%s closed=%s" (tok_of_z cu) (tok_of_z ncl) in
+    let model_obs ms =
+      let ((l, cu), ncl) = mobs ms in
+      (List.map (fun ((w, p), pers) -> (w, p, pers)) l, cu, ncl) in
+    let (iper, icu, _) = read_obs () in
+    let listed = next_list c (fun c -> nat_of_int (next_int c)) in
+    let nth = next_int c in
+    let specs = List.init nth (fun _ -> let k = next c in let ctr = next_int c in let a = next_z c in (k, ctr, a)) in
+    let ncn = nat_of_int nc in
+    let threads = List.map (fun (k, ctr, a) ->
+        match k with
+        | "add" -> adderM ncn (nat_of_int ctr) a
+        | "rot" -> changerM ncn NewFile
+        | "rotf" -> changerM ncn FullFile
+        | _ -> failwith ("multi thread kind " ^ k)) specs in
+    let st = ref (minit (List.map (fun (w, _, _) -> w) iper) listed, threads) in
+    if icu <> Z0 || List.exists (fun (_, p, pers) -> p <> Z0 || pers <> Z0) iper then
+      diff "multi-initial-state" ~model:"file not open, no pointers, nothing persisted" ~impl:(show_obs (iper, icu, Z0));
+    let nsteps = next_int c in
+    let diverged = ref false in
+    let sched = Buffer.create 64 in
+    let begun = Array.make nc Z0 in
+    List.iteri (fun i (w, _, _) -> begun.(i) <- w_extra w) iper;
+    let spawned = Array.make nth false in
+    for i = 1 to nsteps do
+      let tid = next_int c in
+      let o = read_obs () in
+      Buffer.add_string sched (Printf.sprintf "%d " tid);
+      if not spawned.(tid) then begin
+        spawned.(tid) <- true;
+        (match List.nth specs tid with ("add", ctr, a) -> begun.(ctr) <- Z.add begun.(ctr) a | _ -> ())
+      end;
+      if not !diverged then begin
+        st := mstep !st (nat_of_int tid);
+        let m = model_obs (Stdlib.fst !st) in
+        if m <> o then begin
+          diverged := true;
+          diff (Printf.sprintf "multi-step-%d-thread-%d" i tid) ~model:(show_obs m)
+            ~impl:(show_obs o ^ " schedule=[" ^ Buffer.contents sched ^ "]")
+        end
+      end;
+      (* model-backed instant oracle, per counter *)
+      let (per, _, _) = o in
+      List.iteri (fun k (w, _, pers) ->
+          if not (instant_ok (z_of_int nth) begun.(k) w pers) then
+            prop "instant" (Printf.sprintf "multi: step %d counter m%d: word=%s persisted=%s begun=%s schedule=[%s]" i k
+                              (tok_of_z w) (tok_of_z pers) (tok_of_z begun.(k)) (Buffer.contents sched))) per
+    done;
+    if not !diverged then begin
+      let (bad, chk) = mflags (Stdlib.fst !st) in
+      if chk then diff "multi-model-self-check" ~model:"the multi-level control found an embedded thread where it did not expect it" ~impl:("schedule=[" ^ Buffer.contents sched ^ "]");
+      ignore bad;
+      if status = "ok" && not (m_all_done (Stdlib.snd !st)) then
+        diff "multi-model-threads-not-done" ~model:"some thread not done" ~impl:("all calls returned; schedule=[" ^ Buffer.contents sched ^ "]")
+    end;
     (match status with
-     | "hang" -> prop "hang" "multi: a call did not return within the step budget (first open of a full file with several pending counters)"
+     | "hang" -> prop "hang" ("multi: a call did not return within the step budget (first open of a full file with several pending counters); schedule=[" ^ Buffer.contents sched ^ "]")
      | "panic" -> prop "panic" "multi: a call panicked"
      | _ ->
        for i = 0 to nc - 1 do
          let want = next_z c in let got = next_z c in let extra = next_z c in
          if got <> want || extra <> Z0 then
-           prop "quiescent" (Printf.sprintf "multi: counter m%d: increments=%s persisted=%s pending=%s" i (tok_of_z want) (tok_of_z got) (tok_of_z extra))
+           prop "quiescent" (Printf.sprintf "multi: counter m%d: increments=%s persisted=%s pending=%s schedule=[%s]" i (tok_of_z want) (tok_of_z got) (tok_of_z extra) (Buffer.contents sched))
        done)
   | k -> diff "unknown-case-kind" ~model:k ~impl:"-"
 
